@@ -25,5 +25,27 @@ PROPS = {
     },
 }
 
+PROPS["C16"] = {
+    "quick_secs": 10,
+    "thorough_secs": 150,
+    "release_leg": True,
+    "totality": True,
+    "min_evaluations": 100000,
+    "technique": "history monitor: random set_memory/set32 histories vs byte-map model, full read sweep (get8/get/get32/permissions/sections)",
+    "rule": "histories of 2-40 set_memory calls (overlapping, nested, identical, adjacent, bridging, empty, one-byte) and in-region set32 in a "
+            "96-byte hot window at address 0x1000, 0, 2^63-128 or 2^64-65536, both endiannesses; after each history every address of the "
+            "window +-8/+64 is read with get8/permissions, get at 16/24/32/64/128 bits, get32, and sections() is flattened and compared with "
+            "the model. Non-trivial = the history's last write overlaps or abuts existing data or is empty; distinct = (overlap kind of the "
+            "last write, endianness, history length bucket).",
+    "level_text": "Random histories against an executable byte-map model with a complete read sweep after each history; panics are observed "
+                  "as violations. Shapes of overlap are enumerated by construction, addresses and lengths are sampled.",
+    "level_note": "trusts the BTreeMap model in harness/src/c16.rs; set32/get32 judged only where the statement defines them (four bytes last written by one region)",
+    "assumptions": [
+        "set32 is only issued on four bytes last written by the same set_memory call ('within one region')",
+        "get32 spanning two regions may answer None; a value, if given, must be the model's",
+        "regions never extend to address 2^64 (address arithmetic at the very top is not exercised)",
+    ],
+}
+
 # properties not claimed, with the reason (everything else not in PROPS is 'not built yet')
 NOT_CLAIMED = {}
